@@ -81,6 +81,7 @@ class Tr(ast.NodeVisitor):
         self.calls = calls or {}
         self.opaque = {re.sub(r"\s+", "", k): v for k, v in (opaque or {}).items()}
         self.env = None  # symbolic store of the block translator (variable -> Lean term); None for plain expressions
+        self.list_mode = False
 
     def leaf(self, node):
         name = sanitize(ast.get_source_segment(self.src, node))
@@ -103,6 +104,25 @@ class Tr(ast.NodeVisitor):
                 return quote(name)
         if isinstance(n, ast.Constant) and isinstance(n.value, bool):
             return "true" if n.value else "false"
+        if self.list_mode:
+            # lists of string constants (member-name lists): literals, `[*xs, "a"]`, `xs + ["a"]`
+            if isinstance(n, ast.Constant) and isinstance(n.value, str):
+                return json.dumps(n.value)
+            if isinstance(n, ast.List):
+                parts, cur = [], []
+                for e in n.elts:
+                    if isinstance(e, ast.Starred):
+                        if cur:
+                            parts.append("[" + ", ".join(cur) + "]")
+                            cur = []
+                        parts.append(self.tr(e.value))
+                    else:
+                        cur.append(self.tr(e))
+                if cur or not parts:
+                    parts.append("[" + ", ".join(cur) + "]")
+                return parts[0] if len(parts) == 1 else "(" + " ++ ".join(parts) + ")"
+            if isinstance(n, ast.BinOp) and isinstance(n.op, ast.Add):
+                return f"({self.tr(n.left)} ++ {self.tr(n.right)})"
         if isinstance(n, ast.BinOp):
             a, b = self.tr(n.left), self.tr(n.right)
             op = {ast.Add: "+", ast.Sub: "-", ast.Mult: "*", ast.Div: "/", ast.FloorDiv: "/", ast.Mod: "%"}.get(type(n.op))
@@ -230,6 +250,7 @@ class BlockTr:
         self.item = item
         self.tr = Tr(src, item.get("inline"), item.get("calls"), item.get("opaque"))
         self.tr.env = {}
+        self.tr.list_mode = bool(item.get("list_mode"))
         self.effects = item.get("effects", {})
         self.skip = [re.sub(r"\s+", "", k) for k in item.get("skip", [])]
         self.havoc = [re.sub(r"\s+", "", k) for k in item.get("havoc", [])]
@@ -420,6 +441,12 @@ class BlockTr:
         if isinstance(s, ast.AnnAssign) and s.value is not None:
             self.assign(env, s.target, self.expr(env, s.value))
             return self.run(rest, env)
+        if isinstance(s, ast.Expr) and isinstance(s.value, ast.Call) and self.tr.list_mode and \
+                isinstance(s.value.func, ast.Attribute) and s.value.func.attr == "append" and len(s.value.args) == 1:
+            # `xs.append(v)` on a member-name list
+            tgt = s.value.func.value
+            self.assign(env, tgt, f"({self.expr(env, tgt)} ++ [{self.expr(env, s.value.args[0])}])")
+            return self.run(rest, env)
         if isinstance(s, ast.Expr) and isinstance(s.value, ast.Call):
             fn = re.sub(r"\s+", "", ast.unparse(s.value.func))
             for k, v in self.effects.items():
@@ -529,6 +556,7 @@ def extract_item(item):
     fn = find_func(tree, item.get("class"), item["func"])
     expr = find_expr(fn, item["target"], item.get("occurrence", 0))
     tr = Tr(src, item.get("inline"), item.get("calls"), item.get("opaque"))
+    tr.list_mode = bool(item.get("list_mode"))
     term = tr.tr(expr)
     leaves = sorted(tr.leaves)
     if "leaves" in item:
